@@ -6,11 +6,14 @@ _R = None
 _calls = 0
 
 
-def fat_consistency(volume_bytes):
+def fat_consistency(volume_bytes, force=False):
     global _R, _calls
     _calls += 1
     n = len(volume_bytes)
-    if n > 600_000 or (n > 60_000 and _calls % 25) or (n <= 60_000 and _calls % 3):
+    if force:
+        if n > 1_500_000:
+            return None
+    elif n > 600_000 or (n > 60_000 and _calls % 25) or (n <= 60_000 and _calls % 3):
         return None
     if _R is None:
         _R = lib.Runner('Fat')
